@@ -902,7 +902,18 @@ func (rn *runner) deliver(p int, bid db.BucketID, kind string) {
 		if objFault {
 			// the failing requester had stored the value and registered every reference that
 			// precedes the value object's data reference
-			i = curObjFaults.firedAfter
+			// = the (firedAfter+1)-th node requester (bucket MerkleTrie) of the request; requesters
+			// of bucket BytesByHash (value objects, AddRequest) never call Resolve
+			i = len(pend)
+			for j, n := 0, curObjFaults.firedAfter; j < len(pend); j++ {
+				if bkIndex(pend[j]) == 0 {
+					if n == 0 {
+						i = j
+						break
+					}
+					n--
+				}
+			}
 			k1 = len(w.pkids[p]) // = index of the data reference + 1
 			for j, c := range w.pkids[p] {
 				if c.bk == 1 {
